@@ -39,6 +39,20 @@ class C07(PipelineProp):
             profile = rng.choice(["null", "null", "edit"])
             ptx, pieces = P.gen_pretext(rng, inp, profile)
             return {"gen": "termgap/" + profile, "input": inp, "pretext": ptx, "prefix": "SUPER_", "pv": False}
+        if rng.random() < 0.06:
+            # Primary mode with two further haplotypes that both hold a chromosome of the same name and
+            # an unplaced scaffold: the merged all_haplotigs FILE lists the name twice, apart -- read back,
+            # the two must not have become one scaffold (contigs side by side that never were)
+            scs, ptx = [], []
+            for h, hap in enumerate(["HAP1", "HAP2", "HAP3"]):
+                for k in (1, 2):
+                    nm = f"{hap}_SCAFFOLD_{k}"
+                    n1, n2 = rng.randint(300, 900), rng.randint(300, 900)
+                    scs.append({"name": nm, "rows": [["F", nm, 1, n1, 1, []], ["G", 100, "scaffold"], ["F", nm, n1 + 101, n1 + 100 + n2, 1, []]]})
+                    tags = (["Painted", "Primary"] if h == 0 else ["Painted", hap.capitalize(), "X"]) if k == 1 else ([] if h == 0 else [hap.capitalize()])
+                    ptx.append({"name": f"Scaffold_{len(ptx) + 1}", "rows": [["F", nm, 1, n1 + 100 + n2, rng.choice([1, -1]), tags]]})
+            return {"gen": "primary-3hap", "input": {"scaffolds": scs}, "pretext": {"bpt": "1.000000", "scaffolds": ptx},
+                    "prefix": "SUPER_", "pv": True, "out_name": rng.choice(["xx.1.tpf", "xx.1.agp"])}
         if rng.random() < 0.15:
             # sparse map: single contigs out of the middle of scaffolds
             scs = []
@@ -101,14 +115,28 @@ class C07(PipelineProp):
     def oracle(self, case, obs):
         if "err" in obs:
             return None
+        w = self.walk(case, P.all_out_scaffolds(obs), "")
+        if w:
+            return w
+        # the same walk over the AGP / TPF files the command writes, read back
+        files = P.written_assemblies(obs)
+        for name, scs in files or []:
+            if isinstance(scs, dict):
+                return f"written file {name} cannot be parsed back: {scs['err']}"
+            w = self.walk(case, scs, f"file {name}: ")
+            if w:
+                return w
+        return None
+
+    def walk(self, case, scaffolds, where):
         same, skipped = self.input_index(case)
         po = self.piece_of
-        for sc in P.all_out_scaffolds(obs):
+        for sc in scaffolds:
             rows = sc["rows"]
             if not rows:
-                return f"output scaffold {sc['name']} has no rows"
+                return f"{where}output scaffold {sc['name']} has no rows"
             if rows[0][0] == "G" or rows[-1][0] == "G":
-                return f"output scaffold {sc['name']} begins or ends with a gap"
+                return f"{where}output scaffold {sc['name']} begins or ends with a gap"
             prev = None
             gaps = []
             for r in rows:
@@ -120,12 +148,12 @@ class C07(PipelineProp):
                     is_same = any((m == gaps and po(1, ox, x) and po(1, oy, y))
                                   or (m == gaps[::-1] and po(-1, oy, x) and po(-1, ox, y)) for ox, m, oy in same)
                     if not gaps and not is_same:
-                        return (f"in {sc['name']}: {x[1]}:{x[2]}-{x[3]} and {y[1]}:{y[2]}-{y[3]} are "
+                        return (f"{where}in {sc['name']}: {x[1]}:{x[2]}-{x[3]} and {y[1]}:{y[2]}-{y[3]} are "
                                 f"directly adjacent but were not directly adjacent in the input")
                     if gaps and not is_same and gaps != [JOIN]:
                         third = any(gaps == [gp] and po(1, ox, x) and po(1, oy, y) for ox, gp, oy in skipped)
                         if case.get("pv") or not third:
-                            return (f"in {sc['name']}: gap rows {gaps} between {x[1]}:{x[2]}-{x[3]} and "
+                            return (f"{where}in {sc['name']}: gap rows {gaps} between {x[1]}:{x[2]}-{x[3]} and "
                                     f"{y[1]}:{y[2]}-{y[3]} are neither the gap run that separated these two contigs "
                                     f"in the input nor the join gap")
                 prev = r
